@@ -1,6 +1,7 @@
 import B6.Lemmas.ProtoEachItem
 import B6.Lemmas.ProtoFeed
 import B6.Lemmas.ProtoPbf
+import B6.Lemmas.ProtoMeasure
 /-!
 # C28 — a callback error stops streaming and is reported
 
@@ -201,6 +202,24 @@ theorem eachitem_prompt (c : Cfg) (s s' : St) (h : s' ∈ step c s) (hs : s.stop
       exact ⟨hs, rfl, keep j _ (by intro k j' e; cases e)⟩
     | exited => simp [workerStep] at h
 
+/-- Termination: every step strictly decreases `EachItem.measure` (from ANY state), so there is no livelock … -/
+theorem eachitem_terminates (c : Cfg) (s s' : St) (h : s' ∈ step c s) : measure c s' < measure c s :=
+  measure_step h
+
+/-- … no schedule is longer than the measure of its first state, and (with `eachitem_no_deadlock`) a run that can
+go no further has returned. -/
+theorem eachitem_schedule_bounded (c : Cfg) (sched : List Nat) (s s' : St)
+    (h : runSched (step c) s sched = some s') : sched.length + measure c s' ≤ measure c s :=
+  runSched_bounded (step c) (measure c) (fun _ _ => measure_step) sched s s' h
+
+/-- `P_stops`: a run of `EachItem` that can take no further step has returned; if a callback failed it returned an
+error; and once the feeder had left its loop no further bucket was handed out (`eachitem_prompt`). -/
+theorem eachitem_stops (c : Cfg) (hg : 0 < c.g) (s : St) (h : Reachable (step c) (init c) s) (hd : step c s = []) :
+    ∃ r, s.ret = some r ∧ (s.failed = true → r = true) := by
+  cases hr : s.ret with
+  | none => exact absurd hd (eachitem_no_deadlock c hg s h (by simp [terminal, hr]))
+  | some r => exact ⟨r, rfl, fun hf => eachitem_error_reported c s h r hr hf⟩
+
 /-- non-vacuity: 1 goroutine, 3 buckets of one id, the first callback fails — the schedule that deadlocked the
 old code now ends with the error returned. -/
 def exCfg : Cfg := { g := 1, n := 3, size := fun _ => 1, fails := fun k _ => k == 0 }
@@ -251,7 +270,7 @@ theorem feed_no_deadlock (c : Cfg) (hg : 0 < c.g) (s : St) (h : Reachable (step 
     obtain ⟨w, hw, hne⟩ := this
     obtain ⟨i, hi⟩ := List.mem_iff_getElem?.mp hw
     have wstep : ∀ s', s' ∈ workerStep c s i w → s' ∈ step c s := fun s' hs' =>
-      mem_step.mpr ⟨hr, Or.inr (Or.inr (Or.inr (Or.inr ⟨i, w, hi, hs'⟩)))⟩
+      mem_step.mpr ⟨hr, Or.inr (Or.inr (Or.inr (Or.inr (Or.inr ⟨i, w, hi, hs'⟩))))⟩
     cases w with
     | idle =>
       cases hq : s.queue with
@@ -275,7 +294,8 @@ theorem feed_worker_stops (c : Cfg) (s s' : St) (h : s' ∈ step c s) (i : Nat)
     (hi : s.ws[i]? = some W.failing ∨ s.ws[i]? = some W.exited) :
     s'.ws[i]? = some W.failing ∨ s'.ws[i]? = some W.exited := by
   obtain ⟨_, h⟩ := mem_step.mp h
-  rcases h with ⟨_, _, rfl⟩ | ⟨_, _, rfl⟩ | ⟨_, _, rfl⟩ | ⟨_, _, rfl⟩ | ⟨j, w, hw, h⟩
+  rcases h with ⟨_, _, rfl⟩ | ⟨_, _, rfl⟩ | ⟨_, _, rfl⟩ | ⟨_, _, rfl⟩ | ⟨_, _, rfl⟩ | ⟨j, w, hw, h⟩
+  · exact hi
   · exact hi
   · exact hi
   · exact hi
@@ -299,9 +319,32 @@ further items are received by the callback goroutines. -/
 theorem feed_prompt (c : Cfg) (s : St) (h : Reachable (step c) (init c) s) : s.late ≤ c.g := by
   have := (inv_reachable h).cap; omega
 
+theorem feed_terminates (c : Cfg) (s s' : St) (h : s' ∈ step c s) : measure c s' < measure c s :=
+  measure_step h
+
+theorem feed_schedule_bounded (c : Cfg) (sched : List Nat) (s s' : St)
+    (h : runSched (step c) s sched = some s') : sched.length + measure c s' ≤ measure c s :=
+  runSched_bounded (step c) (measure c) (fun _ _ => measure_step) sched s s' h
+
+/-- `P_stops` for `Read` / `eachIngestFeature` / `EachModifiedTag` — also when the caller's context is cancelled by
+the environment at an arbitrary step (`c.ext = true`): a run that can take no further step has returned; if a
+callback failed it returned an error; and at most `g` items reached a callback goroutine after the producer had
+seen the cancellation. -/
+theorem feed_stops (c : Cfg) (hg : 0 < c.g) (s : St) (h : Reachable (step c) (init c) s) (hd : step c s = []) :
+    ∃ r, s.ret = some r ∧ (s.failed = true → r = true) ∧ s.late ≤ c.g := by
+  cases hr : s.ret with
+  | none => exact absurd hd (feed_no_deadlock c hg s h (by simp [terminal, hr]))
+  | some r => exact ⟨r, rfl, fun hf => feed_error_reported c s h r hr hf, feed_prompt c s h⟩
+
 def exFeed (watch : Bool) : Cfg := { g := 1, n := 3, fails := fun k => k == 0, watch := watch }
 example : ∃ s, Reachable (step (exFeed true)) (init (exFeed true)) s ∧ s.ret = some true ∧ s.failed = true :=
   ⟨_, Reachable.of_runSched [0, 0, 0, 0, 0, 0, 0, 0] _ _ .refl rfl, by decide⟩
+
+/-- non-vacuity of `ext`: nothing fails, the caller cancels after the first callback: `Read` stops, having passed
+only that one feature to the callback — and returns nil (it does not report the cancellation; see notes/C28.md). -/
+def exFeedExt : Cfg := { g := 1, n := 3, fails := fun _ => false, watch := true, ext := true }
+example : ∃ s, Reachable (step exFeedExt) (init exFeedExt) s ∧ s.ret = some false ∧ s.calls = 1 ∧ s.next < 3 :=
+  ⟨_, Reachable.of_runSched [0, 0, 0, 0, 1, 0, 0, 0] _ _ .refl rfl, by decide⟩
 
 end Feed
 
@@ -455,6 +498,20 @@ theorem pbf_worker_stops (c : Cfg) (s s' : St) (h : s' ∈ step c s) (i : Nat)
 data blobs are taken by the workers. -/
 theorem pbf_prompt (c : Cfg) (s : St) (h : Reachable (step c) (init c) s) : s.late ≤ c.g := by
   have := (inv_reachable h).cap; omega
+
+theorem pbf_terminates (c : Cfg) (s s' : St) (h : s' ∈ step c s) : measure c s' < measure c s :=
+  measure_step h
+
+theorem pbf_schedule_bounded (c : Cfg) (sched : List Nat) (s s' : St)
+    (h : runSched (step c) s sched = some s') : sched.length + measure c s' ≤ measure c s :=
+  runSched_bounded (step c) (measure c) (fun _ _ => measure_step) sched s s' h
+
+/-- `P_stops` for `ReadPBFWithOptions`. -/
+theorem pbf_stops (c : Cfg) (hg : 0 < c.g) (s : St) (h : Reachable (step c) (init c) s) (hd : step c s = []) :
+    ∃ r, s.ret = some r ∧ (s.failed = true → r = true) ∧ s.late ≤ c.g := by
+  cases hr : s.ret with
+  | none => exact absurd hd (pbf_no_deadlock c hg s h (by simp [terminal, hr]))
+  | some r => exact ⟨r, rfl, fun hf => pbf_error_reported c s h r hr hf, pbf_prompt c s h⟩
 
 def exPbf : Cfg := { g := 1, n := 3, size := fun k => if k == 0 then 0 else 1, fails := fun k _ => k == 1 }
 example : ∃ s, Reachable (step exPbf) (init exPbf) s ∧ s.ret = some true ∧ s.failed = true :=
